@@ -1048,3 +1048,51 @@ func AtomCallsUnexportedHelper(atom string) bool {
 
 // LastIf is the exported form of lastIf.
 func LastIf(b *ssa.BasicBlock) (*ssa.If, bool) { return lastIf(b) }
+
+// InlineTailCalls replaces rows that delegate to an unexported repository helper
+// (`return helper(args)`) by the helper's own rows, under the row's condition and with the
+// helper's parameters rendered as the call's arguments. keep (optional) names outcomes that
+// the rule knows and that must stay as they are.
+func (t *Table) InlineTailCalls(resIdxOf func(*ssa.Function) int, keep func(r Row) bool) {
+	for round := 0; round < 3; round++ {
+		changed := false
+		var out []Row
+		for _, r := range t.Rows {
+			cc, isCall := r.Call.(*ssa.Call)
+			if !strings.HasPrefix(r.Outcome, "call:") || !isCall || (keep != nil && keep(r)) || !isTailOf(r.Ret, cc) {
+				out = append(out, r)
+				continue
+			}
+			callee := Followable(cc, nil)
+			if callee == nil || exportedFunc(callee) {
+				out = append(out, r)
+				continue
+			}
+			idx := resIdxOf(callee)
+			if idx < 0 {
+				out = append(out, r)
+				continue
+			}
+			var sub *Table
+			var err error
+			WithSubst(substFor(cc, callee, sigSubst), func() { sub, err = ExtractTable(callee, idx) })
+			if err != nil {
+				out = append(out, r)
+				continue
+			}
+			for _, hr := range sub.Rows {
+				nr := hr
+				nr.Cond = simplify(andDNF(r.Cond, hr.Cond))
+				if len(nr.Cond) == 0 {
+					continue
+				}
+				out = append(out, nr)
+			}
+			changed = true
+		}
+		t.Rows = out
+		if !changed {
+			return
+		}
+	}
+}
